@@ -16,7 +16,7 @@ import (
 var c09Stores = []string{"rmap", "nmap", "nstruct", "ctl", "rmap", "nstruct"}
 
 func c09Gen(r *kit.Rng) *histScenario {
-	sk := c09Stores[r.Intn(len(c09Stores))]
+	sk := store.Variant(r, c09Stores[r.Intn(len(c09Stores))])
 	st, _ := store.New(sk)
 	caps := st.Caps()
 	caps.MaxNodes = r.Range(8, 22)
